@@ -242,6 +242,145 @@ def translate_target(pkg, t):
     return params, tr.vars, body
 
 
+# ---------------------------------------------------------------------------------------------------------------
+# Binary event format: the constants and the word codec, read from the source text (group "Fmt", property C06).
+# Fail closed: every name must be bound exactly once at module level by an integer expression over literals and
+# earlier names (+ - *), never rebound anywhere else in the file; to_bytes / to_integer must have exactly the shape
+# `return x.to_bytes(W, ORDER)` / `return int.from_bytes(x, ORDER)`.
+FMT_NAMES = ["MAGIC_NUMBER", "CURRENT_VERSION_WITH_FREQ", "CURRENT_VERSION"]
+FMT_ERRS = ["NO_ERROR", "MAGIC_NUMBER_DOES_NOT_MATCH", "VERSION_NUMBER_DOES_NOT_MATCH", "INITIAL_ERROR_CODE"]
+
+
+def _int_expr(e, env):
+    if isinstance(e, ast.Constant) and isinstance(e.value, int) and not isinstance(e.value, bool):
+        return e.value
+    if isinstance(e, ast.Name) and e.id in env:
+        return env[e.id]
+    if isinstance(e, ast.BinOp) and isinstance(e.op, (ast.Add, ast.Sub, ast.Mult)):
+        a, b = _int_expr(e.left, env), _int_expr(e.right, env)
+        return a + b if isinstance(e.op, ast.Add) else a - b if isinstance(e.op, ast.Sub) else a * b
+    raise Unsupported("constant expression %s" % ast.dump(e)[:80])
+
+
+def _body_without_docstring(fn):
+    body = list(fn.body)
+    if body and isinstance(body[0], ast.Expr) and isinstance(body[0].value, ast.Constant) \
+            and isinstance(body[0].value.value, str):
+        body = body[1:]
+    return body
+
+
+def _order(e):
+    if isinstance(e, ast.Constant) and e.value in ("little", "big"):
+        return e.value == "little"
+    raise Unsupported("byte order is not a 'little' / 'big' literal")
+
+
+def translate_fmt(pkg):
+    import re
+    with open(os.path.join(pkg, "preprocess.py"), encoding="utf-8") as f:
+        tree = ast.parse(f.read())
+    env = {}
+    for st in tree.body:
+        if isinstance(st, ast.Assign) and len(st.targets) == 1 and isinstance(st.targets[0], ast.Name) \
+                and st.targets[0].id in FMT_NAMES:
+            if st.targets[0].id in env:
+                raise Unsupported("%s is bound twice" % st.targets[0].id)
+            env[st.targets[0].id] = _int_expr(st.value, env)
+    for n in FMT_NAMES:
+        if n not in env:
+            raise Unsupported("preprocess.%s is not a module-level integer constant" % n)
+    stores = [x.id for x in ast.walk(tree) if isinstance(x, ast.Name) and isinstance(x.ctx, (ast.Store, ast.Del))
+              and x.id in FMT_NAMES]
+    globs = [n for x in ast.walk(tree) if isinstance(x, (ast.Global, ast.Nonlocal)) for n in x.names if n in FMT_NAMES]
+    if len(stores) != len(FMT_NAMES) or globs:
+        raise Unsupported("a format constant of preprocess.py is rebound somewhere (%s %s)" % (stores, globs))
+    out = {"py_" + k: v for k, v in env.items()}
+    # to_bytes
+    fn = find_function(tree, "to_bytes")
+    a = fn.args
+    if a.vararg or a.kwarg or a.kwonlyargs or a.defaults or a.posonlyargs or len(a.args) != 1 or fn.decorator_list:
+        raise Unsupported("to_bytes: signature")
+    body = _body_without_docstring(fn)
+    if len(body) != 1 or not isinstance(body[0], ast.Return):
+        raise Unsupported("to_bytes: body is not a single return")
+    c = body[0].value
+    if not (isinstance(c, ast.Call) and isinstance(c.func, ast.Attribute) and c.func.attr == "to_bytes"
+            and isinstance(c.func.value, ast.Name) and c.func.value.id == a.args[0].arg
+            and len(c.args) == 2 and not c.keywords):
+        raise Unsupported("to_bytes: not `return x.to_bytes(W, ORDER)`")
+    out["to_bytes_width"] = _int_expr(c.args[0], {})
+    out["to_bytes_little"] = _order(c.args[1])
+    # to_integer
+    fn = find_function(tree, "to_integer")
+    a = fn.args
+    if a.vararg or a.kwarg or a.kwonlyargs or a.defaults or a.posonlyargs or len(a.args) != 1 or fn.decorator_list:
+        raise Unsupported("to_integer: signature")
+    body = _body_without_docstring(fn)
+    if len(body) != 1 or not isinstance(body[0], ast.Return):
+        raise Unsupported("to_integer: body is not a single return")
+    c = body[0].value
+    if not (isinstance(c, ast.Call) and isinstance(c.func, ast.Attribute) and c.func.attr == "from_bytes"
+            and isinstance(c.func.value, ast.Name) and c.func.value.id == "int"
+            and len(c.args) == 2 and not c.keywords
+            and isinstance(c.args[0], ast.Name) and c.args[0].id == a.args[0].arg):
+        raise Unsupported("to_integer: not `return int.from_bytes(x, ORDER)`")
+    out["to_integer_little"] = _order(c.args[1])
+    # neither helper nor `int` may be rebound in the module
+    for x in ast.walk(tree):
+        if isinstance(x, ast.Name) and isinstance(x.ctx, ast.Store) and x.id in ("to_bytes", "to_integer", "int"):
+            raise Unsupported("%s is rebound in preprocess.py" % x.id)
+    if sum(1 for x in ast.walk(tree) if isinstance(x, (ast.FunctionDef, ast.AsyncFunctionDef, ast.ClassDef))
+           and x.name in ("to_bytes", "to_integer")) != 2:
+        raise Unsupported("to_bytes / to_integer are defined more than once")
+    # the compiled kernels: ndl_parallel.pyx (Cython text, line grammar)
+    with open(os.path.join(pkg, "ndl_parallel.pyx"), encoding="utf-8") as f:
+        pyx = f.read()
+    kenv = {}
+    for n in FMT_NAMES:
+        ms = re.findall(r"^cdef unsigned int %s = ([0-9A-Za-z_+ ]+?)\s*(?:#.*)?$" % n, pyx, re.M)
+        if len(ms) != 1 or len(re.findall(r"\b%s\s*(?:[-+*/|&^]|<<|>>)?=(?!=)" % n, pyx)) != 1:
+            raise Unsupported("ndl_parallel.pyx: %s is not bound exactly once by `cdef unsigned int %s = <expr>`" % (n, n))
+        kenv[n] = _int_expr(ast.parse(ms[0].strip(), mode="eval").body, kenv) % 2 ** 32   # unsigned int
+    out.update({"k_" + k: v for k, v in kenv.items()})
+    # the error codes the kernels return: error_codes.pxd
+    with open(os.path.join(pkg, "error_codes.pxd"), encoding="utf-8") as f:
+        pxd = f.read()
+    m = re.search(r"^cdef enum ErrorCode:\n((?:[ \t]+\S.*\n)+)", pxd, re.M)
+    if not m or len(re.findall(r"^cdef enum", pxd, re.M)) != 1:
+        raise Unsupported("error_codes.pxd: not exactly one `cdef enum ErrorCode:` block")
+    enum = {}
+    for ln in m.group(1).splitlines():
+        mm = re.fullmatch(r"\s+([A-Z_]+) = ([0-9]+)\s*", ln)
+        if not mm or mm.group(1) in enum:
+            raise Unsupported("error_codes.pxd: enum line %r" % ln)
+        enum[mm.group(1)] = int(mm.group(2))
+    for n in FMT_ERRS:
+        if n not in enum:
+            raise Unsupported("error_codes.pxd: %s missing" % n)
+        out["err_" + n] = enum[n]
+    return out
+
+
+def emit_fmt(pkg, lines, report):
+    name = "fmt_consts_src"
+    try:
+        c = translate_fmt(pkg)
+    except (Unsupported, SyntaxError, OSError, KeyError) as ex:
+        report[name] = {"translated": False, "reason": str(ex)}
+        lines += ["(* %s: NOT TRANSLATED: %s *)" % (name, str(ex).replace("*)", "* )")),
+                  "Definition %s_translated : bool := false." % name, ""]
+        return
+    report[name] = {"translated": True, "constants": c}
+    lines.append("(* preprocess.py / ndl_parallel.pyx / error_codes.pxd -> binary format constants *)")
+    for k, v in c.items():
+        if isinstance(v, bool):
+            lines.append("Definition fmt_%s_src : bool := %s." % (k, "true" if v else "false"))
+        else:
+            lines.append("Definition fmt_%s_src : Z := (%d)%%Z." % (k, v))
+    lines += ["Definition %s_translated : bool := true." % name, ""]
+
+
 def main():
     pkg, out = sys.argv[1], sys.argv[2]
     lines = ["(* GENERATED by tools/py2coq.py from the source under %s -- do not edit *)" % pkg,
@@ -265,6 +404,7 @@ def main():
         lines.append("Definition %s : pyfun := {| f_params := [%s]; f_body :=\n %s |}." % (
             name, "; ".join(str(vars_[p]) for p in params), body))
         lines += ["Definition %s_translated : bool := true." % name, ""]
+    emit_fmt(pkg, lines, report)
     with open(out, "w") as f:
         f.write("\n".join(lines) + "\n")
     json.dump(report, sys.stdout)
